@@ -76,6 +76,65 @@ Proof.
   apply ref_eqb_eq in E. subst k'. destruct (lookup st k); [reflexivity|discriminate].
 Qed.
 
+(* ---------------------------------------------------------------- checkFlattenCycle never runs out of fuel *)
+Definition memk (seen : list ref) (k : ref) : bool := existsb (ref_eqb k) seen.
+(* entries whose key has not been expanded yet, each with its flattened targets *)
+Fixpoint walk_weight (st : sset) (seen : list ref) : nat :=
+  match st with
+  | [] => 0
+  | (k, e) :: r => (if memk seen k then 0 else 1 + length (entry_targets e)) + walk_weight r seen
+  end.
+
+Lemma memk_cons seen k k' : memk (k :: seen) k' = ref_eqb k' k || memk seen k'.
+Proof. reflexivity. Qed.
+
+Lemma walk_weight_mono st seen k : walk_weight st (k :: seen) <= walk_weight st seen.
+Proof.
+  induction st as [|[k0 e0] r IH]; cbn [walk_weight]; [lia|]. rewrite memk_cons.
+  destruct (ref_eqb k0 k); cbn [orb]; destruct (memk seen k0); lia.
+Qed.
+Lemma walk_weight_expand st seen k e :
+  memk seen k = false -> lookup st k = Some e ->
+  walk_weight st (k :: seen) + 1 + length (entry_targets e) <= walk_weight st seen.
+Proof.
+  intros Hs. induction st as [|[k0 e0] r IH]; cbn [lookup walk_weight]; intros Hl; [discriminate|].
+  rewrite memk_cons. destruct (ref_eqb k0 k) eqn:E.
+  - apply ref_eqb_eq in E. subst k0. inversion Hl; subst e0. rewrite Hs. cbn [orb].
+    pose proof (walk_weight_mono r seen k). lia.
+  - cbn [orb]. specialize (IH Hl). destruct (memk seen k0); lia.
+Qed.
+
+Lemma flatten_walk_fuel st rootk : forall fuel seen todo,
+  length todo + walk_weight st seen < fuel -> flatten_walk fuel st rootk seen todo <> None.
+Proof.
+  induction fuel as [|fuel IH]; intros seen todo Hf; [lia|]. cbn [flatten_walk].
+  destruct todo as [|k rest]; [discriminate|].
+  destruct (ref_eqb k rootk); [discriminate|].
+  cbn [length] in Hf. fold (memk seen k). destruct (memk seen k) eqn:Es.
+  - apply IH. lia.
+  - apply IH. rewrite app_length. destruct (lookup st k) as [e|] eqn:El.
+    + pose proof (walk_weight_expand st seen k e Es El). lia.
+    + pose proof (walk_weight_mono st seen k). cbn [length]. lia.
+Qed.
+
+Lemma flat_targets_len ps : length (flat_targets ps) <= length ps.
+Proof.
+  unfold flat_targets. induction ps as [|p r IH]; cbn [flat_map length]; [lia|]. rewrite app_length.
+  destruct (p_schema p) as [| | |rr [|]| | |]; cbn [length]; lia.
+Qed.
+Lemma walk_weight_nil st : walk_weight st [] <= length st + total_props st.
+Proof.
+  unfold total_props. induction st as [|[k e] r IH]; cbn [walk_weight length fold_right snd memk existsb]; [lia|].
+  destruct e as [|root]; cbn [entry_targets length]; [lia|].
+  destruct root as [n d en a ps|n d ps|n d p o i]; cbn [entry_targets root_props length]; try lia.
+  pose proof (flat_targets_len ps). lia.
+Qed.
+Lemma flatten_cycle_fuel st rootk ps : flatten_cycle st rootk ps <> None.
+Proof.
+  unfold flatten_cycle. apply flatten_walk_fuel.
+  pose proof (flat_targets_len ps). pose proof (walk_weight_nil st). lia.
+Qed.
+
 (* ---------------------------------------------------------------- well-formedness needed for totality *)
 Section Totality.
 Variable D : desc.
@@ -469,7 +528,8 @@ Proof.
   intros st1 ps HI1 He1. cbn.
   destruct (negb (props_valid ps)); [exact I|].
   destruct (is_oneof_wrapper m); [split; [exact HI1|apply ext_refl]|].
-  destruct (flatten_cycle st1 (msg_key m) ps); [exact I|].
+  pose proof (flatten_cycle_fuel st1 (msg_key m) ps) as Hfc.
+  destruct (flatten_cycle st1 (msg_key m) ps) as [[|]|]; [exact I| |contradiction].
   destruct (find_psm D m) as [ent|cls]; cbn [lift obind Pf Pg fst]; [split; [exact HI1|apply ext_refl]|exact I].
 Qed.
 End Level.
